@@ -42,7 +42,7 @@ ID = "C06"
 DRIVER = "drv_c06"
 PROPS = ["Ptk.Props.C06", "Ptk.Props.C06Scroll", "Ptk.Props.C06Wide", "Ptk.Props.C06WideCells",
          "Ptk.Props.C06Diff", "Ptk.Props.C06Lemmas", "Ptk.Props.C06Cache", "Ptk.Props.C06Full", "Ptk.Props.C06Vt", "Ptk.Props.C06Bytes", "Ptk.Props.C06Resize", "Ptk.Props.C06Block",
-         "Ptk.Props.C06BlockFull", "Ptk.Props.C06Tr"]
+         "Ptk.Props.C06BlockFull", "Ptk.Props.C06Tr", "Ptk.Props.C06Memo"]
 LEVEL_TEXT = ("Lean 4 theorems over executable models of (1) the screen differ (_output_screen_diff with move_cursor / "
               "output_char / get_max_column_index), (2) the whole Renderer state machine: every attribute it keeps "
               "between calls including the two style dictionaries _attrs_for_style / _style_string_has_style with the "
@@ -76,7 +76,9 @@ LEVEL_TEXT = ("Lean 4 theorems over executable models of (1) the screen differ (
               "objects changes between renders (tr_key_current, tr_differ_caches_current, render_refines_tr, "
               "incremental_eq_scratch_tr); a reset forgets the cursor position report, so the drawn rows fit in every state "
               "of a session, also after erase + foreign output + render before the next report (MinOk, fit_of_minOk, "
-              "fit_after_erase, min_avail_reset_needed). The models are tied to /repo on every run by regenerated tables and escape "
+              "fit_after_erase, min_avail_reset_needed). The process-wide memo tables of _16ColorCache are state of the encoder "
+              "model, keyed (rgb, exclude) as the code keys them, and proved transparent for every call sequence "
+              "(vtEmitAllM_eq; memo_key_needs_exclude). The models are tied to /repo on every run by regenerated tables and escape "
               "sequences with pins, a call-by-call and state-by-state correspondence (dictionary contents, hashes, sizes, "
               "CPR state, heights), a byte-for-byte comparison of the Lean encoder with the real Vt100_Output, a "
               "cross-check of both Lean terminals with an independent Python VT100 interpreter, and the property oracle on "
@@ -119,7 +121,10 @@ RULE = ("exhaustive: every pair (thorough: triple) of screens over 3 cell kinds 
         "SetDefaultColor leaves): 4 graph templates x every slot assignment x every change of one slot x 34 screen "
         "pairs with NOTHING else invalidating between the renders, plus random chains; real PromptSession layouts with "
         "swap_light_and_dark_colors flipping, and with erase + foreign output (cursor moved down) + render before / "
-        "after a new cursor position report")
+        "after a new cursor position report; 4-bit depth with RGB colours on one process: every ordered pair of 7 "
+        "styles sharing RGB backgrounds under different RGB foregrounds (incl. fg = nearest ANSI colour of bg), the "
+        "from-scratch reference drawn with EMPTY colour memo tables, plus the check that fg and bg of a cell never "
+        "map to the same ANSI colour unless their RGB values are equal")
 EXHAUSTIVE = True
 EXHAUSTIVE_SCOPE = {"quick": "(W,H) in {(1,1),(2,1),(3,1),(1,2)}: 3 cell kinds, all ordered pairs of screens, inline + "
                              "full-screen; (2,2): all ordered pairs, inline; style swaps: (2,1) all ordered pairs of "
@@ -175,6 +180,8 @@ PARTIAL_SCOPE = ["cell contents: three content theorems for three classes of scr
                  "style transformations that make the default char's style visible (Reverse, SetDefaultColor): outside the "
                  "theorems (WorldOk.dflt), known finding; exercised by correspondence and oracle on gap-free screens only "
                  "(the model's dense rows and the sparse dict rows disagree about gaps when the default style is counted)",
+                 "the per-output _EscapeCodeCache dict and the _256ColorCache dict are pure memoisation and not modelled as "
+                 "state (the _16ColorCache tables are)",
                  "AdjustBrightnessStyleTransformation and transformations with their own invalidation_hash are leaves "
                  "(identity + function) in the model"]
 
@@ -429,6 +436,42 @@ def tr_vals_per_op(case):
                 vals[int(k)] = v
         out.append(vals)
     return out
+
+
+def _color_memos():
+    """the module-level memo tables of output/vt100.py (`_16_fg_colors`, `_16_bg_colors`: dicts inside `_16ColorCache`
+    objects; `_256_colors`: a dict): they survive every Vt100_Output and Renderer of the process"""
+    import prompt_toolkit.output.vt100 as V
+    out = []
+    for name in ("_16_fg_colors", "_16_bg_colors"):
+        c = getattr(V, name, None)
+        if c is not None and isinstance(getattr(c, "_cache", None), dict):
+            out.append(c._cache)
+    c = getattr(V, "_256_colors", None)
+    if isinstance(c, dict):
+        out.append(c)
+    return out
+
+
+def clear_color_memos():
+    """a case starts like a fresh process: empty colour memo tables"""
+    for d in _color_memos():
+        d.clear()
+
+
+class clean_color_memos:
+    """the from-scratch reference must not share the colour memo tables of the session: run with empty tables and
+    put the session's tables back afterwards"""
+
+    def __enter__(self):
+        self.saved = [(d, dict(d)) for d in _color_memos()]
+        for d, _ in self.saved:
+            d.clear()
+
+    def __exit__(self, *a):
+        for d, old in self.saved:
+            d.clear()
+            d.update(old)
 
 
 # ------------------------------------------------------------------ recording output
@@ -1068,6 +1111,7 @@ def _ensure_loop():
 def run_case(case, tee):
     """run the ops of a case on the real code; yields (op, calls, state token, bytes, extra)"""
     import prompt_toolkit.renderer as R
+    clear_color_memos()
     W, H, fs = case["W"], case["H"], bool(case["fs"])
     rev = {style_str(k): k for k in all_sids(case)}
     out = RecOutput(W, H, tee=tee)
@@ -1589,6 +1633,7 @@ class _Real:
     def steps(self):
         """yields (op, bytes, height of the previous screen, (sk, tk) in force)"""
         import prompt_toolkit.renderer as R
+        clear_color_memos()
         case = self.case
         style = StubStyle(case)
         if case["kind"] == "diff":
@@ -1820,12 +1865,31 @@ def oracle(case):
         if outside and not shift:
             bad("wrote outside the owned rows", f"{where}: cells {outside[:4]} bound rows<{bound}")
         depth = op_depth(case, op)       # colours are compared as emitted at the depth of THIS render
-        exp = expected_cells(js, case, W, H, depth, sk, tk, real.trg)
+        with clean_color_memos():
+            exp = expected_cells(js, case, W, H, depth, sk, tk, real.trg)
         d = compare_grid(vt, exp, W, H, shift)
         if d:
             bad("terminal does not show the screen",
                 f"{where}: cell (y={d[0]},x={d[1]}) want {d[2]} got {d[3]}; screen={js}")
-        sv = scratch_vt(case, js, done, vt.top, depth, sk, tk, real.trg)
+        with clean_color_memos():
+            sv = scratch_vt(case, js, done, vt.top, depth, sk, tk, real.trg)
+        if depth == 4 and real.trg is None and not shift:
+            # 16-colour approximation: the background of a cell never collapses onto its foreground unless the two
+            # RGB values are equal
+            tab4 = style_table(case, sk, tk)
+            ansi = set(Vt100_Output.__init__.__globals__["FG_ANSI_COLORS"])
+            g4 = vt.owned()
+            for (cy, cx, ct, csid) in js["cells"]:
+                a4 = tab4.get(csid)
+                if a4 is None or not a4.color or not a4.bgcolor or a4.color == a4.bgcolor:
+                    continue
+                if a4.color in ansi or a4.bgcolor in ansi or cy >= len(g4) or cx >= W or not ct or ct == " ":
+                    continue
+                cell = g4[cy][cx]
+                if cell[0] == ct and cell[1][0] and cell[1][0] == cell[1][1]:
+                    bad("foreground and background of a cell mapped to the same ANSI colour",
+                        f"{where}: cell (y={cy},x={cx}) fg={a4.color} bg={a4.bgcolor} both shown as {cell[1][0]}")
+                    break
         # compare with the from-scratch draw (same origin-relative coordinates)
         ga, gb = vt.owned(), sv.owned()
         diffc = None
@@ -2337,6 +2401,33 @@ def rand_tr_update(rng, spec):
     return {"op": "trset", "set": {str(k): rng.choice(dom[k])}}
 
 
+# 4-bit colour depth with RGB colours: the same RGB background under different RGB foregrounds (fe0000 is nearest to
+# bright red: under a bright-red foreground it must become dark red, under any other foreground bright red)
+C16_STYLES = [[2, "ff0000", "fe0000", "0000000"], [3, "0000ff", "fe0000", "0000000"], [4, "cd0000", "fe0000", "0000000"],
+              [5, "fe0000", "fe0000", "0000000"], [6, "00ff00", "00fe00", "0000000"], [7, "ff0000", "00fe00", "0000000"],
+              [8, "", "fe0000", "0000000"]]
+
+
+def c16_cases(modes=(0,)):
+    """ONE process, ONE Renderer, depth 4: every ordered pair (thorough: and triple) of these styles on the cell 'x',
+    drawn one after the other (the second render replaces the cell or adds it next to the first)"""
+    sids = [r[0] for r in C16_STYLES]
+    idx = 0
+    for a in sids:
+        for b in sids:
+            for fs in modes:
+                for keep in (0, 1):
+                    s1 = {"h": 1, "cells": [[0, 0, "x", a]], "zwe": [], "cur": [0, 0], "show": 1}
+                    cells2 = [[0, 0, "x", a], [0, 1, "y", b]] if keep else [[0, 0, "x", b]]
+                    s2 = {"h": 1, "cells": cells2, "zwe": [], "cur": [1, 0], "show": idx % 2}
+                    ops = [{"op": "render", "scr": s1, "done": 0}, {"op": "render", "scr": s2, "done": 0}]
+                    if idx % 3 == 0:
+                        ops.append({"op": "render", "scr": s1, "done": int(idx % 6 == 0)})
+                    idx += 1
+                    yield {"kind": "rend", "W": 3, "H": 2, "fs": fs, "depth": 4, "styles": C16_STYLES, "chain": True,
+                           "ops": ops}
+
+
 def cases(tier, rng):
     if tier == "quick":
         yield from small_cases([(1, 1), (2, 1), (3, 1), (1, 2)], 2)
@@ -2346,6 +2437,7 @@ def cases(tier, rng):
         yield from block_cases(3)
         yield from tr_cases([TR_LEAVES_PLAIN], TR_KINDS_ANY, False)
         yield from tr_cases(TR_LEAVES_ANY[:1], TR_KINDS_FULL, True)
+        yield from c16_cases()
         nrand, nfree, nres, nlay = 2500, 1200, 700, 120
     else:
         yield from small_cases([(1, 1), (2, 1), (3, 1), (1, 2), (2, 2)], 2)
@@ -2357,6 +2449,7 @@ def cases(tier, rng):
         yield from block_cases(4)
         yield from tr_cases([TR_LEAVES_PLAIN], TR_KINDS_ANY, False, depths=(8, 24, 4, 1), modes=(0, 1))
         yield from tr_cases(TR_LEAVES_ANY, TR_KINDS_FULL, True, depths=(8, 24, 4))
+        yield from c16_cases(modes=(0, 1))
         nrand, nfree, nres, nlay = 40000, 12000, 7000, 1200
     for _ in range(nrand):
         yield rand_chain(rng, tier)
